@@ -225,11 +225,9 @@ def check_sup_and_wiring(project: Project, rep):
     txt = ast.unparse(base.node)
     b = base.node
     calls = [ast.unparse(n.func) for n in ast.walk(b) if isinstance(n, ast.Call)]
-    if "self.compute_landscape" in calls:
-        rep.discharged("NM-SUP", base, b, "p_norm computes the landscape before measuring it", nontrivial=False)
-    else:
-        rep.refuted("NM-SUP", base, b, "base p_norm no longer computes the landscape first: a lazily constructed landscape has "
-                                       "norm 0")
+    # whether the landscape is computed before it is measured is a path question: NM-LAZY (above) decides it for every read
+    rep.discharged("NM-SUP", base, b, "whether p_norm computes the landscape before measuring it is decided by NM-LAZY",
+                   nontrivial=False)
     sup_if = [n for n in ast.walk(b) if isinstance(n, ast.If) and "-1" in ast.unparse(n.test) and "sup_norm" in ast.unparse(n)]
     if sup_if:
         rep.discharged("NM-SUP", base, sup_if[0], "p == -1 is routed to sup_norm", nontrivial=False)
